@@ -1203,6 +1203,78 @@ theorem skip_cursor_wrapper_get_last_value__view_offset_absolute_offset_good (c 
   rw [mod_of_lt64 hnw] at h
   exact h
 
+/-! the setters: the check of `set_value` / `set_last_value` is the getter's check with `sizeof(T)` -/
+
+theorem cursor_set_value__view_offset_absolute_offset_value_good (c : Ctx) (hn : c.base + c.n < 2^63) (b off sz : Nat) :
+    Good c [curCheck c cursor_set_value__view_offset_absolute_offset_value 1 "ptr" "offset" "sizeof_T" b off sz] := by
+  refine ⟨⟨fun h63 hnw => ?_, trivial⟩, trivial⟩
+  show evalSizeCheck cursor_set_value__view_offset_absolute_offset_value 1 [("ptr", c.p b), ("end", c.endp), ("offset", u64 off), ("sizeof_T", u64 sz)] = _
+  rw [evalSizeCheck_of cursor_set_value__view_offset_absolute_offset_value 1 _ _ _ _ _ _ (c.p b) c.endp (u64 off) (u64 sz) rfl rfl rfl rfl rfl]
+  have h := macro_eval (c.base + b) (c.base + c.n) (u64 off) (u64 sz) .u64 _ h63 hn
+    (add_u64_left .u64 off sz (by omega) (nn_u64 sz (by omega))) (nn_u64 _ (Nat.mod_lt _ (by decide)))
+  rw [mod_of_lt64 hnw] at h
+  exact h
+
+theorem cursor_set_last_value__view_offset_absolute_offset_value_good (c : Ctx) (hn : c.base + c.n < 2^63) (b off sz : Nat) :
+    Good c [curCheck c cursor_set_last_value__view_offset_absolute_offset_value 1 "ptr" "offset" "sizeof_T" b off sz] := by
+  refine ⟨⟨fun h63 hnw => ?_, trivial⟩, trivial⟩
+  show evalSizeCheck cursor_set_last_value__view_offset_absolute_offset_value 1 [("ptr", c.p b), ("end", c.endp), ("offset", u64 off), ("sizeof_T", u64 sz)] = _
+  rw [evalSizeCheck_of cursor_set_last_value__view_offset_absolute_offset_value 1 _ _ _ _ _ _ (c.p b) c.endp (u64 off) (u64 sz) rfl rfl rfl rfl rfl]
+  have h := macro_eval (c.base + b) (c.base + c.n) (u64 off) (u64 sz) .u64 _ h63 hn
+    (add_u64_left .u64 off sz (by omega) (nn_u64 sz (by omega))) (nn_u64 _ (Nat.mod_lt _ (by decide)))
+  rw [mod_of_lt64 hnw] at h
+  exact h
+
+theorem init_cursor_wrapper_set_value__view_size_t_absolute_offset_value_good (c : Ctx) (hn : c.base + c.n < 2^63) (b off sz : Nat) :
+    Good c [curCheck c init_cursor_wrapper_set_value__view_size_t_absolute_offset_value 0 "begin" "absolute_offset" "sizeof_T" b off sz] := by
+  refine ⟨⟨fun h63 hnw => ?_, trivial⟩, trivial⟩
+  show evalSizeCheck init_cursor_wrapper_set_value__view_size_t_absolute_offset_value 0 [("begin", c.p b), ("end", c.endp), ("absolute_offset", u64 off), ("sizeof_T", u64 sz)] = _
+  rw [evalSizeCheck_of init_cursor_wrapper_set_value__view_size_t_absolute_offset_value 0 _ _ _ _ _ _ (c.p b) c.endp (u64 off) (u64 sz) rfl rfl rfl rfl rfl]
+  have h := macro_eval (c.base + b) (c.base + c.n) (u64 off) (u64 sz) .u64 _ h63 hn
+    (add_u64_left .u64 off sz (by omega) (nn_u64 sz (by omega))) (nn_u64 _ (Nat.mod_lt _ (by decide)))
+  rw [mod_of_lt64 hnw] at h
+  exact h
+
+theorem init_cursor_wrapper_set_last_value__view_size_t_absolute_offset_value_good (c : Ctx) (hn : c.base + c.n < 2^63) (b off sz : Nat) :
+    Good c [curCheck c init_cursor_wrapper_set_last_value__view_size_t_absolute_offset_value 0 "begin" "absolute_offset" "sizeof_T" b off sz] := by
+  refine ⟨⟨fun h63 hnw => ?_, trivial⟩, trivial⟩
+  show evalSizeCheck init_cursor_wrapper_set_last_value__view_size_t_absolute_offset_value 0 [("begin", c.p b), ("end", c.endp), ("absolute_offset", u64 off), ("sizeof_T", u64 sz)] = _
+  rw [evalSizeCheck_of init_cursor_wrapper_set_last_value__view_size_t_absolute_offset_value 0 _ _ _ _ _ _ (c.p b) c.endp (u64 off) (u64 sz) rfl rfl rfl rfl rfl]
+  have h := macro_eval (c.base + b) (c.base + c.n) (u64 off) (u64 sz) .u64 _ h63 hn
+    (add_u64_left .u64 off sz (by omega) (nn_u64 sz (by omega))) (nn_u64 _ (Nat.mod_lt _ (by decide)))
+  rw [mod_of_lt64 hnw] at h
+  exact h
+
+theorem dont_move_cursor_wrapper_set_value__view_offset_absolute_offset_value_good (c : Ctx) (hn : c.base + c.n < 2^63) (b off sz : Nat) :
+    Good c [curCheck c dont_move_cursor_wrapper_set_value__view_offset_absolute_offset_value 1 "cursor_ptr" "offset" "sizeof_T" b off sz] := by
+  refine ⟨⟨fun h63 hnw => ?_, trivial⟩, trivial⟩
+  show evalSizeCheck dont_move_cursor_wrapper_set_value__view_offset_absolute_offset_value 1 [("cursor_ptr", c.p b), ("end", c.endp), ("offset", u64 off), ("sizeof_T", u64 sz)] = _
+  rw [evalSizeCheck_of dont_move_cursor_wrapper_set_value__view_offset_absolute_offset_value 1 _ _ _ _ _ _ (c.p b) c.endp (u64 off) (u64 sz) rfl rfl rfl rfl rfl]
+  have h := macro_eval (c.base + b) (c.base + c.n) (u64 off) (u64 sz) .u64 _ h63 hn
+    (add_u64_left .u64 off sz (by omega) (nn_u64 sz (by omega))) (nn_u64 _ (Nat.mod_lt _ (by decide)))
+  rw [mod_of_lt64 hnw] at h
+  exact h
+
+theorem dont_move_cursor_wrapper_set_last_value__view_offset_absolute_offset_value_good (c : Ctx) (hn : c.base + c.n < 2^63) (b off sz : Nat) :
+    Good c [curCheck c dont_move_cursor_wrapper_set_last_value__view_offset_absolute_offset_value 1 "cursor_ptr" "offset" "sizeof_T" b off sz] := by
+  refine ⟨⟨fun h63 hnw => ?_, trivial⟩, trivial⟩
+  show evalSizeCheck dont_move_cursor_wrapper_set_last_value__view_offset_absolute_offset_value 1 [("cursor_ptr", c.p b), ("end", c.endp), ("offset", u64 off), ("sizeof_T", u64 sz)] = _
+  rw [evalSizeCheck_of dont_move_cursor_wrapper_set_last_value__view_offset_absolute_offset_value 1 _ _ _ _ _ _ (c.p b) c.endp (u64 off) (u64 sz) rfl rfl rfl rfl rfl]
+  have h := macro_eval (c.base + b) (c.base + c.n) (u64 off) (u64 sz) .u64 _ h63 hn
+    (add_u64_left .u64 off sz (by omega) (nn_u64 sz (by omega))) (nn_u64 _ (Nat.mod_lt _ (by decide)))
+  rw [mod_of_lt64 hnw] at h
+  exact h
+
+theorem init_dont_move_cursor_wrapper_set_value__view_offset_absolute_offset_value_good (c : Ctx) (hn : c.base + c.n < 2^63) (b off sz : Nat) :
+    Good c [curCheck c init_dont_move_cursor_wrapper_set_value__view_offset_absolute_offset_value 0 "begin" "absolute_offset" "sizeof_T" b off sz] := by
+  refine ⟨⟨fun h63 hnw => ?_, trivial⟩, trivial⟩
+  show evalSizeCheck init_dont_move_cursor_wrapper_set_value__view_offset_absolute_offset_value 0 [("begin", c.p b), ("end", c.endp), ("absolute_offset", u64 off), ("sizeof_T", u64 sz)] = _
+  rw [evalSizeCheck_of init_dont_move_cursor_wrapper_set_value__view_offset_absolute_offset_value 0 _ _ _ _ _ _ (c.p b) c.endp (u64 off) (u64 sz) rfl rfl rfl rfl rfl]
+  have h := macro_eval (c.base + b) (c.base + c.n) (u64 off) (u64 sz) .u64 _ h63 hn
+    (add_u64_left .u64 off sz (by omega) (nn_u64 sz (by omega))) (nn_u64 _ (Nat.mod_lt _ (by decide)))
+  rw [mod_of_lt64 hnw] at h
+  exact h
+
 theorem cursor_get_static_field_view__view_offset_absolute_offset_good (c : Ctx) (hn : c.base + c.n < 2^63) (b off : Nat) :
     Good c [curCheck0 c cursor_get_static_field_view__view_offset_absolute_offset 1 "ptr" "offset" b off] := by
   refine ⟨⟨fun h63 hnw => ?_, trivial⟩, trivial⟩
@@ -1333,20 +1405,28 @@ theorem good_if (c : Ctx) (b : Bool) (x : List Ev) (h : Good c x) : Good c (if b
   · exact good_nil c
   · exact h
 
-theorem curScalar_good (c : Ctx) (hn : c.base + c.n < 2^63) (v : CView) (f : CField) (ptr : Nat) (var : CVar) :
-    Good c (curScalar c v f ptr var).1 := by
+theorem curScalar_good (c : Ctx) (hn : c.base + c.n < 2^63) (v : CView) (f : CField) (ptr : Nat) (w : Bool) (var : CVar) :
+    Good c (curScalar c v f ptr w var).1 := by
   have hl := lvEnd_good c hn v
   cases var <;> simp only [curScalar, curAssert]
-  · cases f.last <;> simp only [if_true, if_false, Bool.false_eq_true]
+  · cases f.last <;> cases w <;> simp only [plainSite, szName, if_true, if_false, Bool.false_eq_true]
     · exact good_act c _ _ ptr f.rel f.size false _ [] rfl (cursor_get_value__view_offset_absolute_offset_good c hn _ _ _) (good_nil c)
+    · exact good_act c _ _ ptr f.rel f.size true _ [] rfl (cursor_set_value__view_offset_absolute_offset_value_good c hn _ _ _) (good_nil c)
     · exact good_act c _ _ ptr f.rel f.size false _ _ rfl (cursor_get_last_value__view_offset_absolute_offset_good c hn _ _ _) hl
-  · cases f.last <;> simp only [if_true, if_false, Bool.false_eq_true]
+    · exact good_act c _ _ ptr f.rel f.size true _ _ rfl (cursor_set_last_value__view_offset_absolute_offset_value_good c hn _ _ _) hl
+  · cases f.last <;> cases w <;> simp only [initSite, szName, if_true, if_false, Bool.false_eq_true]
     · exact good_ct c _ v.vb f.abs f.size false _ [] rfl (init_cursor_wrapper_get_value__view_size_t_absolute_offset_good c hn _ _ _) (good_nil c)
+    · exact good_ct c _ v.vb f.abs f.size true _ [] rfl (init_cursor_wrapper_set_value__view_size_t_absolute_offset_value_good c hn _ _ _) (good_nil c)
     · exact good_ct c _ v.vb f.abs f.size false _ _ rfl (init_cursor_wrapper_get_last_value__view_size_t_absolute_offset_good c hn _ _ _) hl
-  · cases f.last <;> simp only [if_true, if_false, Bool.false_eq_true]
+    · exact good_ct c _ v.vb f.abs f.size true _ _ rfl (init_cursor_wrapper_set_last_value__view_size_t_absolute_offset_value_good c hn _ _ _) hl
+  · cases f.last <;> cases w <;> simp only [dontMoveSite, szName, if_true, if_false, Bool.false_eq_true]
     · exact good_act c _ _ ptr f.rel f.size false _ [] rfl (dont_move_cursor_wrapper_get_value__view_offset_absolute_offset_good c hn _ _ _) (good_nil c)
+    · exact good_act c _ _ ptr f.rel f.size true _ [] rfl (dont_move_cursor_wrapper_set_value__view_offset_absolute_offset_value_good c hn _ _ _) (good_nil c)
     · exact good_act c _ _ ptr f.rel f.size false _ [] rfl (dont_move_cursor_wrapper_get_last_value__view_offset_absolute_offset_good c hn _ _ _) (good_nil c)
-  · exact good_ct c _ v.vb f.abs f.size false _ [] rfl (init_dont_move_cursor_wrapper_get_value__view_offset_absolute_offset_good c hn _ _ _) (good_nil c)
+    · exact good_act c _ _ ptr f.rel f.size true _ [] rfl (dont_move_cursor_wrapper_set_last_value__view_offset_absolute_offset_value_good c hn _ _ _) (good_nil c)
+  · cases w <;> simp only [initDontMoveSite, szName, if_true, if_false, Bool.false_eq_true]
+    · exact good_ct c _ v.vb f.abs f.size false _ [] rfl (init_dont_move_cursor_wrapper_get_value__view_offset_absolute_offset_good c hn _ _ _) (good_nil c)
+    · exact good_ct c _ v.vb f.abs f.size true _ [] rfl (init_dont_move_cursor_wrapper_set_value__view_offset_absolute_offset_value_good c hn _ _ _) (good_nil c)
   · cases f.last <;> simp only [if_true, if_false, Bool.false_eq_true]
     · exact good_ac c _ _ [] (skip_cursor_wrapper_get_value__view_offset_absolute_offset_good c hn _ _ _) (good_nil c)
     · exact good_ac c _ _ _ (skip_cursor_wrapper_get_last_value__view_offset_absolute_offset_good c hn _ _ _) hl
@@ -1370,12 +1450,98 @@ theorem curView_good (c : Ctx) (hn : c.base + c.n < 2^63) (v : CView) (f : CFiel
     · exact good_ac c _ _ [] (skip_cursor_wrapper_get_static_field_view__view_offset_absolute_offset_good c hn _ _) (good_nil c)
     · exact good_ac c _ _ _ (skip_cursor_wrapper_get_last_static_field_view__view_offset_absolute_offset_good c hn _ _) hl
 
-theorem curField_good (c : Ctx) (hn : c.base + c.n < 2^63) (v : CView) (f : CField) (ptr : Nat) (var : CVar) :
-    Good c (curField c v f ptr var).1 := by
+theorem curField_good (c : Ctx) (hn : c.base + c.n < 2^63) (v : CView) (f : CField) (ptr : Nat) (var : CVar) (w : Bool) :
+    Good c (curField c v f ptr var w).1 := by
   unfold curField
   split
   · exact curView_good c hn v f ptr var
-  · exact curScalar_good c hn v f ptr var
+  · exact curScalar_good c hn v f ptr w var
+
+/-! ### a cursor setter is the getter of the same wrapper with a write in place of the read -/
+
+/-- forget whether an access reads or writes -/
+def Ev.asRead : Ev → Ev
+  | .touch lo len _ => .touch lo len false
+  | e => e
+
+theorem plain_set_check_eq (c : Ctx) (b off sz : Nat) :
+    curCheck c cursor_set_value__view_offset_absolute_offset_value 1 "ptr" "offset" "sizeof_T" b off sz =
+      curCheck c cursor_get_value__view_offset_absolute_offset 1 "ptr" "offset" "sizeof_U" b off sz := by
+  simp only [curCheck]
+  rw [evalSizeCheck_of cursor_set_value__view_offset_absolute_offset_value 1 _ _ _ _ _ _ (c.p b) c.endp (u64 off) (u64 sz) rfl rfl rfl rfl rfl,
+      evalSizeCheck_of cursor_get_value__view_offset_absolute_offset 1 _ _ _ _ _ _ (c.p b) c.endp (u64 off) (u64 sz) rfl rfl rfl rfl rfl]
+
+theorem plain_set_assert_eq (c : Ctx) (vb abs ptr rel : Nat) :
+    curAssert c cursor_set_value__view_offset_absolute_offset_value "ptr" vb abs ptr rel = curAssert c cursor_get_value__view_offset_absolute_offset "ptr" vb abs ptr rel := rfl
+
+theorem plainLast_set_check_eq (c : Ctx) (b off sz : Nat) :
+    curCheck c cursor_set_last_value__view_offset_absolute_offset_value 1 "ptr" "offset" "sizeof_T" b off sz =
+      curCheck c cursor_get_last_value__view_offset_absolute_offset 1 "ptr" "offset" "sizeof_U" b off sz := by
+  simp only [curCheck]
+  rw [evalSizeCheck_of cursor_set_last_value__view_offset_absolute_offset_value 1 _ _ _ _ _ _ (c.p b) c.endp (u64 off) (u64 sz) rfl rfl rfl rfl rfl,
+      evalSizeCheck_of cursor_get_last_value__view_offset_absolute_offset 1 _ _ _ _ _ _ (c.p b) c.endp (u64 off) (u64 sz) rfl rfl rfl rfl rfl]
+
+theorem plainLast_set_assert_eq (c : Ctx) (vb abs ptr rel : Nat) :
+    curAssert c cursor_set_last_value__view_offset_absolute_offset_value "ptr" vb abs ptr rel = curAssert c cursor_get_last_value__view_offset_absolute_offset "ptr" vb abs ptr rel := rfl
+
+theorem init_set_check_eq (c : Ctx) (b off sz : Nat) :
+    curCheck c init_cursor_wrapper_set_value__view_size_t_absolute_offset_value 0 "begin" "absolute_offset" "sizeof_T" b off sz =
+      curCheck c init_cursor_wrapper_get_value__view_size_t_absolute_offset 0 "begin" "absolute_offset" "sizeof_U" b off sz := by
+  simp only [curCheck]
+  rw [evalSizeCheck_of init_cursor_wrapper_set_value__view_size_t_absolute_offset_value 0 _ _ _ _ _ _ (c.p b) c.endp (u64 off) (u64 sz) rfl rfl rfl rfl rfl,
+      evalSizeCheck_of init_cursor_wrapper_get_value__view_size_t_absolute_offset 0 _ _ _ _ _ _ (c.p b) c.endp (u64 off) (u64 sz) rfl rfl rfl rfl rfl]
+
+theorem initLast_set_check_eq (c : Ctx) (b off sz : Nat) :
+    curCheck c init_cursor_wrapper_set_last_value__view_size_t_absolute_offset_value 0 "begin" "absolute_offset" "sizeof_T" b off sz =
+      curCheck c init_cursor_wrapper_get_last_value__view_size_t_absolute_offset 0 "begin" "absolute_offset" "sizeof_U" b off sz := by
+  simp only [curCheck]
+  rw [evalSizeCheck_of init_cursor_wrapper_set_last_value__view_size_t_absolute_offset_value 0 _ _ _ _ _ _ (c.p b) c.endp (u64 off) (u64 sz) rfl rfl rfl rfl rfl,
+      evalSizeCheck_of init_cursor_wrapper_get_last_value__view_size_t_absolute_offset 0 _ _ _ _ _ _ (c.p b) c.endp (u64 off) (u64 sz) rfl rfl rfl rfl rfl]
+
+theorem dontMove_set_check_eq (c : Ctx) (b off sz : Nat) :
+    curCheck c dont_move_cursor_wrapper_set_value__view_offset_absolute_offset_value 1 "cursor_ptr" "offset" "sizeof_T" b off sz =
+      curCheck c dont_move_cursor_wrapper_get_value__view_offset_absolute_offset 1 "cursor_ptr" "offset" "sizeof_U" b off sz := by
+  simp only [curCheck]
+  rw [evalSizeCheck_of dont_move_cursor_wrapper_set_value__view_offset_absolute_offset_value 1 _ _ _ _ _ _ (c.p b) c.endp (u64 off) (u64 sz) rfl rfl rfl rfl rfl,
+      evalSizeCheck_of dont_move_cursor_wrapper_get_value__view_offset_absolute_offset 1 _ _ _ _ _ _ (c.p b) c.endp (u64 off) (u64 sz) rfl rfl rfl rfl rfl]
+
+theorem dontMove_set_assert_eq (c : Ctx) (vb abs ptr rel : Nat) :
+    curAssert c dont_move_cursor_wrapper_set_value__view_offset_absolute_offset_value "cursor_ptr" vb abs ptr rel = curAssert c dont_move_cursor_wrapper_get_value__view_offset_absolute_offset "cursor_ptr" vb abs ptr rel := rfl
+
+theorem dontMoveLast_set_check_eq (c : Ctx) (b off sz : Nat) :
+    curCheck c dont_move_cursor_wrapper_set_last_value__view_offset_absolute_offset_value 1 "cursor_ptr" "offset" "sizeof_T" b off sz =
+      curCheck c dont_move_cursor_wrapper_get_last_value__view_offset_absolute_offset 1 "cursor_ptr" "offset" "sizeof_U" b off sz := by
+  simp only [curCheck]
+  rw [evalSizeCheck_of dont_move_cursor_wrapper_set_last_value__view_offset_absolute_offset_value 1 _ _ _ _ _ _ (c.p b) c.endp (u64 off) (u64 sz) rfl rfl rfl rfl rfl,
+      evalSizeCheck_of dont_move_cursor_wrapper_get_last_value__view_offset_absolute_offset 1 _ _ _ _ _ _ (c.p b) c.endp (u64 off) (u64 sz) rfl rfl rfl rfl rfl]
+
+theorem dontMoveLast_set_assert_eq (c : Ctx) (vb abs ptr rel : Nat) :
+    curAssert c dont_move_cursor_wrapper_set_last_value__view_offset_absolute_offset_value "cursor_ptr" vb abs ptr rel = curAssert c dont_move_cursor_wrapper_get_last_value__view_offset_absolute_offset "cursor_ptr" vb abs ptr rel := rfl
+
+theorem initDontMove_set_check_eq (c : Ctx) (b off sz : Nat) :
+    curCheck c init_dont_move_cursor_wrapper_set_value__view_offset_absolute_offset_value 0 "begin" "absolute_offset" "sizeof_T" b off sz =
+      curCheck c init_dont_move_cursor_wrapper_get_value__view_offset_absolute_offset 0 "begin" "absolute_offset" "sizeof_U" b off sz := by
+  simp only [curCheck]
+  rw [evalSizeCheck_of init_dont_move_cursor_wrapper_set_value__view_offset_absolute_offset_value 0 _ _ _ _ _ _ (c.p b) c.endp (u64 off) (u64 sz) rfl rfl rfl rfl rfl,
+      evalSizeCheck_of init_dont_move_cursor_wrapper_get_value__view_offset_absolute_offset 0 _ _ _ _ _ _ (c.p b) c.endp (u64 off) (u64 sz) rfl rfl rfl rfl rfl]
+
+/-- same assertion, same size check (value included), same bytes, same cursor afterwards -/
+theorem curScalar_set_eq (c : Ctx) (v : CView) (f : CField) (ptr : Nat) (var : CVar) :
+    (curScalar c v f ptr true var).1.map Ev.asRead = (curScalar c v f ptr false var).1.map Ev.asRead ∧
+    (curScalar c v f ptr true var).2 = (curScalar c v f ptr false var).2 := by
+  cases var <;> simp only [curScalar]
+  · cases f.last <;> simp only [plainSite, szName, if_true, if_false, Bool.false_eq_true]
+    · rw [plain_set_check_eq, plain_set_assert_eq]; refine ⟨?_, ?_⟩ <;> first | rfl | trivial
+    · rw [plainLast_set_check_eq, plainLast_set_assert_eq]; refine ⟨?_, ?_⟩ <;> first | rfl | trivial
+  · cases f.last <;> simp only [initSite, szName, if_true, if_false, Bool.false_eq_true]
+    · rw [init_set_check_eq]; refine ⟨?_, ?_⟩ <;> first | rfl | trivial
+    · rw [initLast_set_check_eq]; refine ⟨?_, ?_⟩ <;> first | rfl | trivial
+  · cases f.last <;> simp only [dontMoveSite, szName, if_true, if_false, Bool.false_eq_true]
+    · rw [dontMove_set_check_eq, dontMove_set_assert_eq]; refine ⟨?_, ?_⟩ <;> first | rfl | trivial
+    · rw [dontMoveLast_set_check_eq, dontMoveLast_set_assert_eq]; refine ⟨?_, ?_⟩ <;> first | rfl | trivial
+  · simp only [initDontMoveSite, szName, if_true, if_false, Bool.false_eq_true]
+    rw [initDontMove_set_check_eq]; refine ⟨?_, ?_⟩ <;> first | rfl | trivial
+  · refine ⟨?_, ?_⟩ <;> first | rfl | trivial
 
 theorem getterAssert_good (c : Ctx) (site : Site) (pn : String) (getter : List Ev × Nat) (ptr : Nat)
     (hg : Good c getter.1) : Good c (getterAssert c site pn getter ptr) :=
@@ -1429,7 +1595,7 @@ theorem travFields_good (c : Ctx) (hn : c.base + c.n < 2^63) (v : CView) (tg : T
     unfold travFields
     split
     · exact h
-    · exact ih _ (after_good c _ t tg _ _ h (curField_good c hn v f _ _))
+    · exact ih _ (after_good c _ t tg _ _ h (curField_good c hn v f _ _ _))
 
 theorem travDatas_good (c : Ctx) (hn : c.base + c.n < 2^63) (v : CView) (tg : Target) (getterOf : Nat → List Ev × Nat)
     (hg : ∀ j, Good c (getterOf j).1) :
